@@ -5,7 +5,12 @@ from expr.py).  '=' in text leaves: `compile_r` (Model.v) is the real parse with
 ProofsEq.v: compile_r = compile without '=', and the model on compile_r computes `eval` for text / parameter defaults / #if / #ifeq /
 calls with positional and ` k = v ` arguments whose texts contain '=' (C04_eval_correct_eq_text_partial).
 Tie: real parser vs `compile_r`, Expander vs `eval`, Expander vs the flatten model on compile_r, `{{#expr:..}}` vs the extracted
-parser model.  The generator puts '=' into text leaves wherever the language defines it to be text (and blanks around argument names)."""
+parser model.  The generator puts '=' into text leaves wherever the language defines it to be text (and blanks around argument names).
+Numbers: parse_num (coq/C03/Model.v, shared by the model of maybe_numeric_compare / maybe_numeric and by the reference num_aware_eq)
+accepts [+-]?(digits[.digits*]|.digits)([eE][+-]?digits)? - exponent folded into (mantissa, fraction digits) by `scale` - so the
+reference compares 1e3 = 1000, 5e-1 = .5, 2.5E1 = 25 by value; the generator's number leaves and the deterministic num_family use
+every such spelling (signs, zero padding, trailing point, exponent with/without fraction) in #ifeq / #switch, directly and through
+arguments, defaults and nested templates."""
 import json
 
 from vt import core
